@@ -67,9 +67,12 @@ def run(ctx, replay):
                                                       inv="AlgebraLaws Emit"))
         addrs = [v for tag, v in ra["printed"] if tag == "ROW"]
         n_str = 5 if thorough else 3
+        n_rows = 4 if thorough else 3
+        # quick: the model-checking run is also the one that prints the string rows
         rs = ctx.tlc_expect_ok("Address", None, name="mc-string", workers=16, timeout=2400,
-                               cfg_text=MC_CFG % dict(devs="", layer="string", strlen=n_str, gen="FALSE",
-                                                      inv="StringLaws"))
+                               cfg_text=MC_CFG % dict(devs="", layer="string", strlen=n_str,
+                                                      gen="TRUE" if n_str == n_rows else "FALSE",
+                                                      inv="StringLaws Emit"))
         ctx.cov["states"] = ra["distinct"] + rs["distinct"]
         ctx.cov["transitions"] = ra["generated"] + rs["generated"]
         ctx.cov["states_algebra"] = ra["distinct"]
@@ -91,10 +94,9 @@ def run(ctx, replay):
         ctx.cov["asis_counterexamples"] = seen
 
         # ---- the case list ---------------------------------------------------------
-        n_rows = 4 if thorough else 3
-        rg = ctx.tlc_expect_ok("Address", None, name="gen-string", workers=16, timeout=1200,
-                               cfg_text=MC_CFG % dict(devs="", layer="string", strlen=n_rows, gen="TRUE",
-                                                      inv="Emit"))
+        rg = rs if n_str == n_rows else ctx.tlc_expect_ok(
+            "Address", None, name="gen-string", workers=16, timeout=1200,
+            cfg_text=MC_CFG % dict(devs="", layer="string", strlen=n_rows, gen="TRUE", inv="Emit"))
         strings = [v for tag, v in rg["printed"] if tag == "ROW"]
         if len(strings) != rg["distinct"]:
             raise vlib.Infra("TLC printed %d string rows for %d states" % (len(strings), rg["distinct"]))
